@@ -1354,7 +1354,7 @@ for _p in sorted(_glob.glob(_os.path.join(_os.path.dirname(_os.path.abspath(__fi
 M("SEED-C01-a", ["C01"], [("@patch", "seeded/C01-a/patch.diff", "")], ["C01/replay/pending_control"])
 M("SEED-C01-b", ["C01"], [("@patch", "seeded/C01-b/patch.diff", "")], ["C01/replay/arena-order/retained/ack_packet/swap_remove"])
 M("SEED-C02-a", ["C02"], [("@patch", "seeded/C02-a/patch.diff", "")], ["C02/order/retained/ack_packet/swap_remove"])
-M("SEED-C02-b", ["C02"], [("@patch", "seeded/C02-b/patch.diff", "")], ["C02/ANCHOR-LOST/once/re-arm"])
+M("SEED-C02-b", ["C02"], [("@patch", "seeded/C02-b/patch.diff", "")], ["C02/replay/retained-rearmed-whole"])
 M("SEED-C03-a", ["C03"], [("@patch", "seeded/C03-a/patch.diff", "")], ["C03/rel/after-removal#1"])
 M("SEED-C03-b", ["C03"], [("@patch", "seeded/C03-b/patch.diff", "")], ["C03/wire/rearmed"])
 M("SEED-C04-a", ["C04"], [("@patch", "seeded/C04-a/patch.diff", "")], ["C04/ack/replayed-whole"])
@@ -1400,6 +1400,17 @@ M("RFM-unrolled-fresh-first", ["C01"], [("@patch", "selftest/mutants_rf/unrolled
   ["C01/priority/in-progress-first"])
 M("RFM-unrolled-control-queue-first", ["C01"], [("@patch", "selftest/mutants_rf/unrolled-control-queue-first.diff", "")],
   ["C01/priority/in-progress-first"])
+M("RFM-precheck-inside-enqueue-removed", ["C14"], [("@patch", "selftest/mutants_rf/precheck.diff", "")], ["C14/tx/precheck/handle_packet#5"])
+M("RFM-schedule-before-server-keepalive", ["C10"], [("@patch", "selftest/mutants_rf/ka-order.diff", "")], ["C10/const/schedule-after-connack"])
+M("RFM-server-keepalive-dropped-for-small-values", ["C10"], [("@patch", "selftest/mutants_rf/ka-drop.diff", "")], ["C10/const/server-keepalive"])
+M("RFM-step-records-last-count", ["C13"], [("@patch", "selftest/mutants_rf/accumulate.diff", "")], ["C13/store/step-accumulates"])
+M("RFM-qos2-delivered-untracked", ["C04"], [("@patch", "selftest/mutants_rf/untracked.diff", "")], ["C04/once/deliver-implies-recorded"])
+M("RFM-compact-fold-cursor", ["C17"], [("@patch", "selftest/mutants_rf/fold-cursor.diff", "")], ["C17/compact/cursor"])
+M("RFM-write-then-flush-no-latch", ["C11"], [("@patch", "selftest/mutants_rf/wtf-nolatch.diff", "")], ["C11/fatal/publish/Write.flush#1"])
+M("RFM-table-per-context-cell", ["C19"], [("@patch", "selftest/mutants_rf/table-cell.diff", "")], ["C19/table/Publish/WillDelayInterval"])
+M("RFM-first-decoded-error-stops", ["C20"], [("@patch", "selftest/mutants_rf/first-err-stops.diff", "")], ["C20/lookup/response_topic/payload"])
+M("RFM-connect-flags-struct-credentials", ["C09"], [("@patch", "selftest/mutants_rf/flags-struct.diff", "")], ["C09/bits/connect/password-flag"])
+M("RFM-negotiated-window-unclamped", ["C06"], [("@patch", "selftest/mutants_rf/negotiated-unclamped.diff", "")], ["C06/init/max-value"])
 
 # fourth round: organisational refactorings (guard clauses, sub-borrows, loop forms, private structs, generic helpers)
 for _p in sorted(_glob.glob(_os.path.join(_os.path.dirname(_os.path.abspath(__file__)), "refactors", "rf4", "*.diff"))):
@@ -1411,7 +1422,8 @@ for _p in sorted(_glob.glob(_os.path.join(_os.path.dirname(_os.path.abspath(__fi
 # catalogue so that the limit is measured, and so that any *other* key they start raising is noticed.
 KNOWN_LIMITS = {
     "RF3-C02-05-outbound-next-step-combinators": ("next_step selects its pass through an array of function pointers (indirect calls are not resolved)",
-                                                  ["C01/ANCHOR-LOST/", "C15/ANCHOR-LOST/", "C03/wire/step", "C17/wire/step-from-entry"]),
+                                                  ["C01/ANCHOR-LOST/", "C15/ANCHOR-LOST/", "C03/wire/step", "C17/wire/step-from-entry",
+                                                   "C01/priority/gated/", "C15/write/no-interleave/"]),
     "RF3-C08-01-packet-reader-combinators": ("the fixed-header probe's arithmetic is rewritten as iterator folds; its overflow sites need a numeric range analysis "
                                              "through take(4).enumerate()", ["C08/panic/", "C08/varint/reader-probe"]),
     "RF3-C14-03-packet-reader-control-flow": ("as above (position + fold in the fixed-header probe)", ["C08/panic/", "C08/varint/reader-probe"]),
